@@ -123,8 +123,12 @@ def dReplaced1 (sat : Nat → Bytes → Bool) (R : List Route) (m : Bytes) (p : 
   | none => false
   | some ρ => (laterThan ρ R).any fun r1 => r1.method = m && shapeEq r1.pat ρ.pat
 
+/-- the class as it bears on one request: the request method's own tree, and — only when no route of the
+request method matches, i.e. when the answer is computed by probing the seven standard methods (405 + `Allow`) —
+the trees of those methods -/
 def dReplaced (sat : Nat → Bytes → Bool) (R : List Route) (req : Req) (p : RPath) : Bool :=
-  (methodsOf req).any fun m => dReplaced1 sat R m p
+  dReplaced1 sat R req.method p ||
+    ((refRoute sat R req.method p).isNone && stdMethods.any fun m => dReplaced1 sat R m p)
 
 /-- the class token the driver prints. Since the K01a repair (a handler reads its parameters under the
 names of its own pattern) and the K01b/K01f repair (the descent tries the next alternative when a subtree
